@@ -80,20 +80,29 @@ Theorem sstep_frame w so j :
   j < List.length (pool w) -> starget so <> Some j -> get (fst (sstep w so)) j = get w j.
 Proof.
   intros Hj Ht. unfold sstep.
-  destruct so; cbn [starget] in Ht; try reflexivity.
+  destruct so as [o|t name d d0|t name d a v|t name a js r|t name d0 d|t old new d ident|t name d|t name d0 t2 name2 d
+                  |t t2 i|t n cols|t e|]; cbn [starget] in Ht; try reflexivity.
   - (* SPlain *) cbn [expand run_ops]. apply step_frame; [assumption|]. rewrite <- starget_plain. exact Ht.
   - apply run_ops_frame; [assumption|]. cbn [expand]. apply Forall_app.
-    split; apply Forall_map_const; intros a; cbn [target]; exact Ht.
-  - apply run_ops_frame; [assumption|]. cbn [expand]. destruct (svalue_fits v depth).
+    split; apply Forall_map_const; intros x; cbn [target]; exact Ht.
+  - apply run_ops_frame; [assumption|]. cbn [expand]. destruct (svalue_fits v d).
     + apply Forall_map_const; intros b; cbn [target]; exact Ht.
     + constructor; [cbn [target]; exact Ht|constructor].
   - apply run_ops_frame; [assumption|]. cbn [expand]. apply Forall_map_const; intros b; cbn [target]; exact Ht.
   - apply run_ops_frame; [assumption|]. cbn [expand]. apply Forall_app.
-    split; apply Forall_map_const; intros a; cbn [target]; exact Ht.
-  - apply run_ops_frame; [assumption|]. cbn [expand]. apply Forall_map_const; intros a; cbn [target]; exact Ht.
-  - apply run_ops_frame; [assumption|]. cbn [expand]. apply Forall_map_const; intros a; cbn [target]; exact Ht.
+    split; apply Forall_map_const; intros x; cbn [target]; exact Ht.
+  - apply run_ops_frame; [assumption|]. cbn [expand]. apply Forall_map_const; intros x; cbn [target]; exact Ht.
+  - apply run_ops_frame; [assumption|]. cbn [expand]. apply Forall_map_const; intros x; cbn [target]; exact Ht.
   - apply run_ops_frame; [assumption|]. cbn [expand]. apply Forall_app.
-    split; apply Forall_map_const; intros a; cbn [target]; exact Ht.
+    split; apply Forall_map_const; intros x; cbn [target]; exact Ht.
+  - (* SConcatRow: two new pool members, no existing one touched *)
+    apply run_ops_frame; [assumption|]. cbn [expand]. repeat constructor; cbn [target]; discriminate.
+  - (* SConcatDict: the table built from the dict is a NEW pool member (index = old pool length) *)
+    apply run_ops_frame; [assumption|]. cbn [expand]. constructor; [cbn [target]; discriminate|].
+    apply Forall_app. split.
+    + apply Forall_forall. intros o Ho. apply in_flat_map in Ho. destruct Ho as [[nm vs] [_ Ho]].
+      destruct Ho as [<-|[<-|[]]]; cbn [target]; intros H; injection H as H; lia.
+    + repeat constructor. cbn [target]. discriminate.
   - (* SOut: the out-of-model marker changes nothing *)
     cbn [expand run_ops step]. destruct (get w 0); reflexivity.
 Qed.
